@@ -21,7 +21,7 @@ G_PROPS = {
                 opts={"objective_bias": "plateau"}),
     "C05": dict(oracles=["c05"], families=FAMILIES, modes=MODES, n_quick=6000, n_thorough=60000, opts={}),
     "C06": dict(oracles=["c06"], families=FAMILIES, modes=MODES, n_quick=7000, n_thorough=70000,
-                opts={"cycles_bias_one": True, "extreme_p": 0.15}),
+                opts={"cycles_bias_one": True, "extreme_p": 0.3}),
     "C10": dict(oracles=["c10"], families=FAMILIES, modes=MODES, n_quick=6000, n_thorough=60000,
                 opts={"pop_scales": (1, 1.5, 2, 3), "any_pop_p": 0.5}),
     "C15": dict(oracles=["c15", "c15_trend"], families=FAMILIES, modes=MODES, n_quick=6000, n_thorough=60000,
